@@ -169,7 +169,7 @@ def parseSnap (ws : List String) : Option Snap := do
          hbTimers := ← gn "ht", member := ← gn "member", gen := ← (field kvs "gen").bind parseOptInt, cons := cons }
 
 def showJPc : JPc → String
-  | .idle => "idle" | .coordLookup => "coordLookup" | .metaLoad => "metaLoad" | .prepare => "prepare"
+  | .idle => "idle" | .coordLookup => "coordLookup" | .metaLoad => "metaLoad" | .prepare => "prepare" | .hang => "prepare"
   | .join => "join" | .loadParts _ => "loadParts" | .sync => "sync"
 
 /-- the rest of the state the harness compares: timers with due times, `_rejoin_wait_dc`,
